@@ -1097,11 +1097,12 @@ def main():
 
 def spec_tests():
     """The specification's own unit tests: RFC examples as ASSUMEs (spec/tests). A false assumption is a tool error."""
-    mod = os.path.join(SPEC, "tests", "RfcExamples.tla")
-    r = run_tlc(mod, os.path.join(SPEC, "tests", "RfcExamples.cfg"), workers=1, timeout=600)
-    if "Model checking completed. No error has been found" not in r["out"]:
-        raise ToolError("spec/tests/RfcExamples: an RFC example does not hold for the specification:\n" + r["out"][-3000:])
-    log("[spec-tests] RFC examples hold")
+    for name in ("RfcExamples", "ApiExamples"):
+        mod = os.path.join(SPEC, "tests", name + ".tla")
+        r = run_tlc(mod, os.path.join(SPEC, "tests", name + ".cfg"), workers=1, timeout=600)
+        if "Model checking completed. No error has been found" not in r["out"]:
+            raise ToolError(f"spec/tests/{name}: an example does not hold for the specification:\n" + r["out"][-3000:])
+    log("[spec-tests] RFC examples and API examples hold")
 
 
 def setup():
